@@ -184,6 +184,23 @@ def mir_shape(crate, body):
     return out
 
 
+def mir_passes_argument_through(crate, body):
+    """does some return path of this name()/inline() yield the text of a type argument's name()/inline() as it is, while
+    another path builds text around it?"""
+    from rules.field_rules import _alternatives
+    ib = crate.inlined(body, siblings=_ts_methods(crate))
+    built = passed = False
+    for blk, l, _ in _alternatives(ib, 0):
+        org = [o for o in origins(ib, l, transparent=True) if o["kind"] == "call"]
+        if not org:
+            continue
+        if all(fn_matches(o["t"], r"TS::(name|inline|inline_flattened)$") and (o["t"]["fn"].get("args") or ["Self"])[0] != "Self" for o in org):
+            passed = True
+        else:
+            built = True
+    return built and passed
+
+
 def class_table_rule(syn, crate, prop, rule="C12.R1"):
     r = Result(rule, "representation class of every built-in `impl TS` (primitive table rows, wrappers, shadows, tuples, hand-written containers) equals the class serde's data model assigns to that Rust type; name() and inline() use the same shape; arrays repeat exactly 0..N")
     with open(os.path.join(VERIF, "reference/serde_classes.json")) as fh:
@@ -220,9 +237,21 @@ def class_table_rule(syn, crate, prop, rule="C12.R1"):
             if meth == "name" and shape:
                 for sh in shape:
                     o["class"] = o.get("class") or lit_class(sh)
+                # the shape must be what the function returns on *every* path: an alternative that hands the argument's
+                # name through unchanged (`if already_nullable { ty } else { format!("{ty} | null") }`) is another shape
+                if o.get("class") and mir_passes_argument_through(crate, bodies[0]):
+                    o["class"] = "mixed(%s|transparent)" % o["class"]
         ms = o.get("mir_shapes") or {}
         if o.get("class") and ms.get("name") and ms.get("inline"):
             o["name_literals"], o["inline_literals"] = sorted(set(ms["name"])), sorted(set(ms["inline"]))
+
+    # also where the shape was read from a literal in place: no path may hand the argument through unchanged
+    for o in impls[1:]:
+        if o["how"] == "impl" and o.get("class") and not str(o["class"]).startswith("mixed") and o["class"] != "transparent":
+            bodies = [b for b in crate.bodies if b.raw.get("impl_trait") == "TS" and b.raw.get("assoc_name") == "name"
+                      and (b.raw.get("impl_span") or {}).get("line") == o["line"] and str((b.raw.get("impl_span") or {}).get("file", "")).endswith(o["file"].split("/")[-1])]
+            if len(bodies) == 1 and mir_passes_argument_through(crate, bodies[0]):
+                o["class"] = "mixed(%s|transparent)" % o["class"]
 
     def resolve(o, depth=0):
         if o.get("class"):
